@@ -53,6 +53,15 @@ class UnitResult:
         self.canary = []            # path-condition satisfiability probes
 
 
+def _is_stub_object(o):
+    """the object (or class) an attribute lookup failed on is defined by the verification machinery, not by the repository / libraries"""
+    if o is None:
+        return False
+    cls = o if isinstance(o, type) else type(o)
+    mod = getattr(cls, '__module__', '') or ''
+    return mod.split('.')[0] in ('contracts', 'pyvc', 'vf')
+
+
 def base_namespace(module):
     ns = dict(module.__dict__) if module is not None else {}
     ns.update(np=npshim, len=s_len, range=cut.s_range, all=npshim.all_, any=npshim.any_,
@@ -221,6 +230,9 @@ def explore(unit, repo):
                     raise Unsupported('solver-library error inside the engine %s: %s' % (type(ex).__name__, str(ex)[:200]))
                 if where.startswith(HERE) and not isinstance(ex, ModelledError):
                     raise Unsupported('engine error %s: %s at %s' % (type(ex).__name__, ex, traceback.format_exc(limit=-3)))
+                if isinstance(ex, AttributeError) and not isinstance(ex, ModelledError) and _is_stub_object(getattr(ex, 'obj', None)):
+                    # a stand-in for a library namespace (scipy.signal, interpolate, ...) lacks the attribute: an engine limit
+                    raise Unsupported('stub limit %s: %s' % (type(ex).__name__, ex))
                 if isinstance(ex, (AttributeError, TypeError)) and not isinstance(ex, ModelledError) and any(pn in str(ex) for pn in PROXY_NAMES):
                     # a method / operator / keyword the symbolic proxy does not model: a limit of the engine, not an exception of the code
                     raise Unsupported('proxy limit %s: %s' % (type(ex).__name__, ex))
